@@ -588,6 +588,9 @@ func c17FailureReplyMeansError(c *Ctx, p *Prog) {
 		if ei < 0 {
 			continue
 		}
+		if fn.Name() == "Reply" {
+			continue
+		}
 		ff := p.Facts(fn)
 		var bad string
 		allInstrs(fn, func(in ssa.Instruction) {
@@ -599,8 +602,9 @@ func c17FailureReplyMeansError(c *Ctx, p *Prog) {
 			if sc == nil || sc.Name() != "Reply" || len(ci.Common().Args) != 2 {
 				return
 			}
-			code, ok := intConst(ci.Common().Args[1])
-			if !ok || code == 0 {
+			// Reply(ReplySucceeded) is the one reply that is no refusal; a code that is not a constant (a
+			// helper's parameter, the code a parser handed back with its error) is treated as a failure code
+			if code, ok := intConst(ci.Common().Args[1]); ok && code == 0 {
 				return
 			}
 			n++
@@ -608,9 +612,15 @@ func c17FailureReplyMeansError(c *Ctx, p *Prog) {
 				if !canReachWithout(in, r, nil) || ei >= len(r.Results) {
 					continue
 				}
-				if !ff.ProvablyNonNil(r.Results[ei], r.Block(), 0) {
-					bad = p.FuncKey(fn) + ": after the failure reply at " + p.InstrPos(in) + " the return at " + p.InstrPos(r) + " may carry a nil error"
+				if ff.ProvablyNonNil(r.Results[ei], r.Block(), 0) {
+					continue
 				}
+				// a small "reply and pass the error through" helper: the error is its parameter, and every
+				// call site hands it a non-nil one
+				if q, isParam := unspill(r.Results[ei]).(*ssa.Parameter); isParam && c17AllCallersPassNonNil(p, fn, q) {
+					continue
+				}
+				bad = p.FuncKey(fn) + ": after the failure reply at " + p.InstrPos(in) + " the return at " + p.InstrPos(r) + " may carry a nil error"
 			}
 		})
 		if bad != "" {
@@ -623,6 +633,63 @@ func c17FailureReplyMeansError(c *Ctx, p *Prog) {
 		return
 	}
 	ob.HoldNT("%d failure replies, every return after one is an error return", n)
+}
+
+// c17AllCallersPassNonNil: every call of fn (a function literal called through its variable, or a static helper)
+// passes a provably non-nil error for parameter q; at least one call exists.
+func c17AllCallersPassNonNil(p *Prog, fn *ssa.Function, q *ssa.Parameter) bool {
+	idx := -1
+	for i, x := range fn.Params {
+		if x == q {
+			idx = i
+		}
+	}
+	if idx < 0 {
+		return false
+	}
+	n := 0
+	ok := true
+	scan := func(caller *ssa.Function) {
+		cf := p.Facts(caller)
+		allInstrs(caller, func(in ssa.Instruction) {
+			ci, isCall := in.(ssa.CallInstruction)
+			if !isCall {
+				return
+			}
+			match := false
+			if sc := ci.Common().StaticCallee(); sc == fn {
+				match = true
+			} else if mk, isMk := unspill(ci.Common().Value).(*ssa.MakeClosure); isMk && mk.Fn == ssa.Value(fn) {
+				match = true
+			}
+			if !match {
+				return
+			}
+			args := ci.Common().Args
+			off := 0
+			if fn.Signature.Recv() != nil && !ci.Common().IsInvoke() {
+				off = 0 // receiver is Params[0] and Args[0] alike
+			}
+			if idx+off >= len(args) {
+				ok = false
+				return
+			}
+			n++
+			if !cf.ProvablyNonNil(args[idx+off], in.Block(), 0) {
+				ok = false
+			}
+		})
+	}
+	if fn.Parent() != nil {
+		scan(fn.Parent())
+	} else {
+		for _, g := range p.Funcs {
+			if g.Pkg == fn.Pkg {
+				scan(g)
+			}
+		}
+	}
+	return ok && n > 0
 }
 
 func c17Replies(c *Ctx, p *Prog) {
